@@ -104,7 +104,7 @@ SEEDS3 = {
  "C09-5": ("C09-1", "the same request TEXT twice with different normalized operations (a @skip/@include variable that flips, one document with two operation names): plan cache keyed by the raw input", "C09 quick", "missed as built; caught after adding such requests to the history alphabet"),
  "C09-6": ("C09-2", "minification on, a subgraph operation > 140 bytes with the same inline fragment three times and the abstract field first", "C09 quick", "missed as built; caught after adding minifiable operations to the S-abs alphabet"),
  "C10-5": ("C10-1", "the writer's Flush fails on an incremental frame after the first frame was committed", "C10 quick", "missed as built (the writer never failed); caught after adding executions with a writer whose k-th flush fails"),
- "C10-6": ("C10-2", "four nested @defer levels, the third merged away because its field is also selected by the second", "MISSED", "not caught: placements have at most 2 (thorough 3) defer sites and no duplicated fields across levels (limit, DESIGN 8.6)"),
+ "C10-6": ("C10-2", "four nested @defer levels, the third merged away because its field is also selected by the second", "C10 quick", "missed as built (placements had at most 2 sites and no duplicated fields); caught after adding the nested-chain placements (fedlab.DeferChainVariants: every subset of a three-object spine deferred x every nesting of three leaves x one field selected again on another level - up to seven nested levels)"),
  "C11-5": ("C11-1", "an inbound leader whose context ends by DEADLINE (not cancel) while a follower with a live context waits", "C11 quick", "missed as built (contexts only ended by cancel); caught after adding contexts that end with DeadlineExceeded - which also exposed a genuine defect on the subgraph single flight (follower inherits the leader's deadline failure), fixed in c57fb96"),
  "C11-6": ("C11-2", "a failed subgraph single-flight item is never removed: a LATER identical fetch (not in flight together) gets the stale error", "C11 quick", "missed as built (always-failing upstreams, overlapping arrivals only); caught after adding transient failures and sequenced arrivals"),
  "C14-5": ("C14-1", "a nested @defer mounted below a denied object field whose owning frame aborts its validation walk early (a non-null sibling bubbling to the root)", "MISSED", "not caught: the defer transport has single-site variants and curated two-site operations, none with an aborting non-null sibling (limit, DESIGN 8.6)"),
